@@ -133,6 +133,18 @@ pub fn jobs(tier: Tier, seed: u64) -> Vec<Job> {
             out.push(Job { opts: crate::checks::c19::nest_opts(&d), alpha: crate::checks::c19::nest_alphabet(&d), len: tier.pick(4, 5), env: vec![] });
         }
     }
+    // fallback_to_usage on every level of command trees (the "was the line empty" test)
+    for l in crate::checks::c01::with_usage_fallback(fam::conventional(1, &fam::cmd_tails(seed, true, false), seed + 2)).into_iter().step_by(tier.pick(3, 1)) {
+        let alpha = alphabet(&l, AlphaStyle::Compact);
+        out.push(Job { opts: l.to_opts(), alpha, len: 3, env: vec![] });
+    }
+    // group titles made of multi-byte characters (the title is also turned into a completion
+    // description in builds with autocomplete, on every evaluation)
+    for title in ["Опции", "网络", "ネットワーク設定", "Настройки сети:", "Paramètres réseau"] {
+        let g = P::GroupHelp(P::Seq(vec![P::Switch(Names::both('a', "alpha").help("first")), P::arg(Names::long("beta").help("second"), Ty::Os).opt()]).bx(), DocSpec::plain(title));
+        let w = P::WithGroupHelp(P::Seq(vec![P::Switch(Names::short('c').help("third"))]).bx(), DocSpec::plain(title));
+        out.push(Job { opts: Opts::new(P::Seq(vec![g, w])), alpha: toks(&["-a", "--beta=v", "-c", "--help", "--zz"]), len: 2, env: vec![] });
+    }
     // the same command name in two branches, same one-line help, different descriptions: the
     // help listing de-duplicates them (the command item carries docgen-only data)
     for (da, db) in [("Build it\n\nfirst variant", "Build it\n\nsecond variant"), ("Build it", "Build it"), ("Build it\n\nsame", "Build it\n\nsame")] {
